@@ -470,7 +470,9 @@ def check_walk(case):
             mu2 = mu_of(body) * (SISTER_K[k - 1] if k else 1.0)
             try:
                 e2 = tb.cart2elements(refs[i], mu2)
-            except ZeroDivisionError:  # exactly parabolic around the new body: outside the quantifier
+            except (ZeroDivisionError, ValueError):
+                # exactly parabolic around the new body, or so close to it that the oracle's e < 1 meets an energy > 0
+                # (math domain error in sqrt(mu / a^3)): outside the quantifier
                 e2 = dict(e=1.0)
             ok = (1e-4 <= e2["e"] <= 0.99 or 1.001 <= e2["e"] <= 20) and \
                 (e2["e"] < 1 or svs[i].form.name in HYP_FORMS)
